@@ -574,6 +574,9 @@ impl Scenario for IncScn {
                 if h.pair.is_some() {
                     v.push(IAct::Helper { user: us[0].clone(), dur: 0 });
                     v.push(IAct::Helper { user: us[1].clone(), dur: 2 });
+                    // the same pair and duration as the first user's deposit, by somebody else (back-to-back helper deposits
+                    // that differ in nothing but the depositor)
+                    v.push(IAct::Helper { user: us[1].clone(), dur: 0 });
                     if h.pair.as_ref().unwrap().assets.iter().any(|a| matches!(a, AssetInfo::NativeToken { .. })) {
                         v.push(IAct::HelperOverfunded { user: us[1].clone(), dur: 0 });
                     }
